@@ -450,12 +450,28 @@ def loop_core(ex, st, s, cx, o, spec, guard_fn, bind_fn, idx_sv, extra_inv=None,
     def inv_state(state):
         # expose the counter under its contract name
         if cname in state.vars:
-            return state.setvar(idx_name, state.vars[cname])
+            state = state.setvar(idx_name, state.vars[cname])
+        if spec.get('seq') and f'$it{o}' in state.vars:
+            # the sequence being iterated (for a set: the arbitrary enumeration of its members), by its contract name
+            state = state.setvar(spec['seq'], state.vars[f'$it{o}'])
         return state
 
     invs = list(spec.get('inv', []))
     # 1. establish
     st0 = st.snap('entry').snap('entry:' + o)
+    # an invariant clause that names a local which no longer exists is detached from the code: it is dropped (the loop
+    # is then cut by a weaker invariant, which can only lose proofs) and the fact is reported
+    kept = []
+    for cl in invs:
+        try:
+            eval_clause(ex, inv_state(st0), cl, scx)
+            kept.append(cl)
+        except VCError as err_:
+            if 'is not a local, parameter or module constant' in str(err_):
+                ex.notes.append(f'{label}: invariant clause dropped, it refers to a name the code no longer has: {cl[:80]}')
+            else:
+                raise
+    invs = kept
     for i, cl in enumerate(invs):
         g = eval_clause(ex, inv_state(st0), cl, scx)
         ex.oblige(st0, f'{label}.establish[{i}]', g, kind='loop-establish', info=dict(clause=cl))
@@ -709,6 +725,28 @@ def for_loop(ex, st, s, cx, o, spec):
         t = coll.ty
         if t.kind == 'opt' and T.is_reflike(t.args[0]):
             coll = SV(t.args[0], coll.z)
+            t = coll.ty
+        if t.kind == 'set':
+            # iteration over a set: over an ARBITRARY enumeration `ord` of its elements (no order is assumed, so whatever
+            # is proved holds for every hash seed); pos is the inverse of ord on the members
+            ety = t.args[0]
+            es = T.sort_of(ety)
+            n_ = ex.fresh_z(z3.IntSort(), 'setlen')
+            ord_ = ex.fresh_z(z3.ArraySort(z3.IntSort(), es), 'setord')
+            pos_ = z3.Function(f'setpos!{ex.counter}', es, z3.IntSort())
+            members = ex.set_content(s2, coll)
+            xq = z3.Const('x!so', es)
+            jq = z3.Int('j!so')
+            s2 = s2.assume(n_ >= 0,
+                           z3.ForAll([xq], z3.Select(members, xq) ==
+                                     z3.And(pos_(xq) >= 0, pos_(xq) < n_, z3.Select(ord_, pos_(xq)) == xq),
+                                     patterns=[z3.Select(members, xq)]),
+                           z3.ForAll([jq], z3.Implies(z3.And(jq >= 0, jq < n_),
+                                                      z3.And(z3.Select(members, z3.Select(ord_, jq)),
+                                                             pos_(z3.Select(ord_, jq)) == jq)),
+                                     patterns=[z3.Select(ord_, jq)]))
+            s2, lst_ = ex.new_list(s2, T.lst(ety), n_, ord_, 'setorder')
+            coll = lst_
             t = coll.ty
         if t.kind not in ('list', 'seq', 'cfg'):
             raise VCError(f'for over {t!r} outside subset: {ast.unparse(it)}')
